@@ -29,3 +29,4 @@ func vUF1(name string, x float64) float64
 func vUF2(name string, x, y float64) float64
 func vRealModel() bool
 func vRandUnscripted(on bool)
+func vConcreteBool(b bool) bool
